@@ -124,8 +124,12 @@ func main() {
 	nraw := 3000
 	ncases := 400
 	nsize := 4
+	nlimit := 24
 	if args.Tier == "thorough" {
-		nraw, ncases, nsize = 60000, 5000, 60
+		nraw, ncases, nsize, nlimit = 60000, 5000, 60, 300
+	}
+	if n := xvlib.EnvInt("XV_LIMIT_CASES", -1); n >= 0 {
+		nlimit = n
 	}
 	if n := xvlib.EnvInt("XV_CASES", 0); n > 0 {
 		ncases = n
@@ -145,6 +149,14 @@ func main() {
 	}
 	for i := 0; i < nsize; i++ {
 		g.scenario("size")
+		kvmem.Drop(args.Scratch)
+	}
+	// 3. block size limits that bind (large transactions with small relatives), pools drained block by block
+	for i := 0; i < nlimit; i++ {
+		g.limitScenario()
+		if i < 1 {
+			out.Sample(map[string]interface{}{"ops": headTail(g.canon, 40)})
+		}
 		kvmem.Drop(args.Scratch)
 	}
 	out.Count(fmt.Sprintf("replica-replays-total:%d", ex.replays))
